@@ -53,6 +53,7 @@ C05DocStream(u) ==
 
 \* ---- C14: one slow test case (3 ticks) among three; limits 1 or 6; document limit from front-matter and/or CLI
 SlowTc(id, t, stream) == Tc(id, "exit", 0, 3, None, "stdout", stream, "match", t, FALSE, None)
+SlowD(id, dur) == [SlowTc(id, None, "stdout") EXCEPT !.dur = dur]
 C14Tests(p, t) == [x \in 1..3 |-> IF x = p THEN SlowTc(Ids[1][x], t, "stdout") ELSE Kind("pass", Ids[1][x])]
 C14Cram(p)     == [x \in 1..3 |-> IF x = p THEN SlowTc(Ids[1][x], None, "combined") ELSE CramKind("pass", Ids[1][x])]
 \* a slow test case whose shell ignores SIGTERM: the limits still bound it
@@ -70,6 +71,13 @@ ScenC14(u) == {Run(<<Doc("md", tfm, None, "no", C14Tests(p, t))>>, tcli, <<>>, <
                  tfm \in {None, 1}, tcli \in {None, 1}}
            \cup {Run(<<Doc("cram", None, None, "no", C14Cram(p))>>, tcli, <<>>, <<>>, "cli", FALSE) :
                  p \in 1..3, tcli \in {None, 1, 6}}
+           \* TwoSlow: an earlier slow command (3 ticks) stays inside the document limit of 6 and uses half of it; a later one
+           \* (5 ticks) exceeds what is LEFT, with a fast command in between (or not) -- the remaining document time
+           \cup {Run(<<Doc("md", tfm, None, "no", tests)>>, tcli, <<>>, <<>>, "cli", FALSE) :
+                 tests \in {<<SlowD("d1t1", 3), Kind("pass", "d1t2"), SlowD("d1t3", 5), Kind("pass", "d1t4")>>,
+                            <<SlowD("d1t1", 3), SlowD("d1t2", 5), Kind("pass", "d1t3")>>,
+                            <<Kind("pass", "d1t1"), SlowD("d1t2", 3), Kind("pass", "d1t3"), Kind("pass", "d1t4"), SlowD("d1t5", 5)>>},
+                 tfm \in {None, 6}, tcli \in {None, 6}}
 
 \* ---- C15: the skip code (default 80, document default 7, inline 9) and a decoy (exit 80 where the code is 7)
 SkipperTc(id, code, exp, inline) == Tc(id, "exit", code, 0, exp, "stdout", "stdout", "match", None, FALSE, inline)
@@ -118,6 +126,11 @@ ScenC20(u) == {Run(<<d1>>, None, pre, app, via, FALSE) : d1 \in MdDocsOf(1), pre
                      d1 \in MdDocsOf(1), n2 \in {"pass", "failout"}, pre \in Shared("p1"), app \in Shared("a1"), via \in {"cli", "fm"}}
            \cup {Run(<<d1, Md(MkTests(2, <<"pass">>)), Md(MkTests(3, <<n3>>))>>, None, <<>>, <<>>, "cli", FALSE) :
                      d1 \in DocsOf(1), n3 \in {"pass", "failout"}}
+           \* two Markdown documents whose front-matter names DIFFERENT shared documents (each its own, or only one of them)
+           \cup {[Run(<<Md(MkTests(1, <<n1>>)), Md(MkTests(2, <<n2>>))>>, None, pre, app, "fm2", FALSE) EXCEPT !.pre2 = pre2, !.app2 = app2] :
+                     n1 \in {"pass", "failout"}, n2 \in {"pass", "failcode"},
+                     pre \in {<<>>, <<Kind("pass", "p1")>>}, app \in {<<>>, <<Kind("pass", "a1")>>, <<Kind("failout", "a1")>>},
+                     pre2 \in {<<>>, <<Kind("pass", "p2")>>, <<Kind("failout", "p2")>>}, app2 \in {<<>>, <<Kind("pass", "a2")>>}}
            \* a directory argument instead of single paths (documents of both formats, a nested directory, other files)
            \cup {[Run(<<d1, d2>>, None, <<>>, <<>>, "cli", FALSE) EXCEPT !.dirarg = TRUE] : d1 \in DocsOf(1), d2 \in DocsOf(2)}
            \cup {[Run(<<d1, Md(MkTests(2, <<"pass">>)), Cram(MkCram(3, <<n3>>))>>, None, <<>>, <<>>, "cli", FALSE) EXCEPT !.dirarg = TRUE] :
